@@ -97,6 +97,9 @@ pub fn gen(seed: u64, tier: Tier) -> ScenarioSpec {
     if rng.chance(1, 20) {
         spec.stream.seek_error = true;
     }
+    if rng.chance(1, 4) {
+        gen::gen_embedding(&mut rng, &mut spec.stream);
+    }
     spec.opts = OptsSpec { skip_frames: rng.chance(1, 3), compute_hash: rng.chance(1, 3) };
     spec.api = if rng.chance(3, 10) { Api::Incremental } else { Api::OneShot };
     spec
